@@ -9,9 +9,10 @@
    POST/PUT/DELETE, read key for GET/HEAD) is configured and a handler reaches the
    store, the request carries a well-formed, unexpired HMAC token signed with THAT key
    whose fid claim is textually "<vid>,<fid>" (after _n stripping) of the path.
-   c34_names_target: that claim DENOTES (ParseFileIdFromString) the volume, cookie and - up to
-   the added _delta - needle id the store operation is called with: FULL for GET/HEAD/POST/PUT,
-   REFUTED for DELETE (finding C34/0: parse errors ignored), PARTIAL outside trig_delete_unparsed.
+   c34_names_target (FULL, every method): that claim DENOTES (ParseFileIdFromString) the volume,
+   cookie and - up to the added _delta - needle id the store operation is called with.  (Formerly
+   refuted for DELETE, finding C34/0: DeleteHandler ignored the errors of NewVolumeId / ParsePath;
+   repaired in the Go code: 400 after the token check, c34_delete_unparsed_bad_request.)
    c34_reject_before_touch (FULL): a request whose check fails never reaches the store. *)
 From Coq Require Import List NArith Bool String.
 From SW Require Import model.Jwt proof.JwtProofs.
@@ -26,57 +27,71 @@ Proof. exact accept_sound. Qed.
 Print Assumptions c34_accept_sound.
 
 (* what "Proceed v f a" stands for: v,f are parseURLPath's reading of the path, the check passed on
-   them; for reads and uploads a is what NewVolumeId v / ParsePath f give (both succeed), an upload's
-   own needle (CreateNeedleFromRequest) is that same needle; for a delete a is whatever the parsers left
-   (errors ignored); writes come through the private port and past the white list *)
+   them; for every method (reads, uploads, deletes) a is what NewVolumeId v / ParsePath f give (both
+   succeed), an upload's own needle (CreateNeedleFromRequest) is that same needle; writes come through
+   the private port and past the white list *)
 Theorem c34_proceed_authorized : forall tab cfg rq v f a, handle tab cfg rq = Proceed v f a ->
   parse_url_path (rq_path rq) = Some (v, f) /\
   check_jwt tab cfg (is_write_method (rq_method rq)) rq v f = true /\
-  (is_delete (rq_method rq) = false ->
-     exists vol id ck, parse_vid v = Some vol /\ parse_path f = Some (id, ck) /\ a = (vol, id, ck)) /\
+  (exists vol id ck, parse_vid v = Some vol /\ parse_path f = Some (id, ck) /\ a = (vol, id, ck)) /\
   (is_upload (rq_method rq) = true ->
      exists u, upload_fid (rq_path rq) = Some u /\ parse_path u = parse_path f) /\
-  (is_delete (rq_method rq) = true ->
-     a = (match parse_vid v with Some x => x | None => 0%N end,
-          fst (fst (parse_path_st f)), snd (fst (parse_path_st f)))) /\
   (is_write_method (rq_method rq) = true -> rq_public rq = false /\ whitelist_blocks cfg rq = false).
 Proof. exact proceed_authorized. Qed.
 Print Assumptions c34_proceed_authorized.
 
-(* "names the target file", full statement REFUTED (finding C34/0): the store is reached under a
-   configured key although the presented token's claim denotes no file *)
-Theorem c34_names_target_refuted : exists tab cfg rq v f a,
-  key_for cfg (is_write_method (rq_method rq)) <> "" /\
-  handle tab cfg rq = Proceed v f a /\
-  forall t, lookup (get_jwt rq) tab = Some t -> claim_den (t_fid t) = None.
-Proof. exact names_target_refuted. Qed.
-Print Assumptions c34_names_target_refuted.
-
-(* PARTIAL: outside the per-request trigger (DELETE whose volume id or base file id does not parse) the
-   compared text denotes the volume and cookie the store is called with and the needle id up to the
-   _delta ParsePath adds: "ignoring the sub-file suffix" means a token for key k opens key k+n *)
-Theorem c34_names_target_partial : forall tab cfg rq v f a,
-  handle tab cfg rq = Proceed v f a -> trig_delete_unparsed rq = false ->
+(* "names the target file", FULL for every method (the former finding C34/0 is repaired): the compared
+   text denotes the volume and cookie the store is called with and the needle id up to the _delta
+   ParsePath adds: "ignoring the sub-file suffix" means a token for key k opens key k+n *)
+Theorem c34_names_target : forall tab cfg rq v f a,
+  handle tab cfg rq = Proceed v f a ->
   exists vol id ck d, claim_den (v ++ "," ++ strip_suffix f) = Some (vol, id, ck) /\
   a = (vol, ((id + d) mod 2 ^ 64)%N, ck).
 Proof. exact proceed_names_target. Qed.
-Print Assumptions c34_names_target_partial.
+Print Assumptions c34_names_target.
 
-Theorem c34_accept_names_target_partial : forall tab cfg rq v f a,
+Theorem c34_accept_names_target : forall tab cfg rq v f a,
   key_for cfg (is_write_method (rq_method rq)) <> "" ->
-  handle tab cfg rq = Proceed v f a -> trig_delete_unparsed rq = false ->
+  handle tab cfg rq = Proceed v f a ->
   exists t vol id ck d, lookup (get_jwt rq) tab = Some t /\
   decode_ok (key_for cfg (is_write_method (rq_method rq))) t = true /\
   claim_den (t_fid t) = Some (vol, id, ck) /\ a = (vol, ((id + d) mod 2 ^ 64)%N, ck).
 Proof. exact accept_names_target. Qed.
-Print Assumptions c34_accept_names_target_partial.
+Print Assumptions c34_accept_names_target.
 
-(* FULL for reads and uploads of a file id without _suffix: the claim denotes exactly the addressed needle *)
+(* the negation of the formerly refuted statement: under a configured key the store is not reached with a
+   token whose claim denotes no file *)
+Theorem c34_accept_claim_denotes : forall tab cfg rq v f a,
+  key_for cfg (is_write_method (rq_method rq)) <> "" ->
+  handle tab cfg rq = Proceed v f a ->
+  exists t, lookup (get_jwt rq) tab = Some t /\ claim_den (t_fid t) <> None.
+Proof. exact accept_claim_denotes. Qed.
+Print Assumptions c34_accept_claim_denotes.
+
+(* FULL for a file id without _suffix, every method: the claim denotes exactly the addressed needle *)
 Theorem c34_names_exact : forall tab cfg rq v f a,
-  handle tab cfg rq = Proceed v f a -> is_delete (rq_method rq) = false -> no_us f = true ->
+  handle tab cfg rq = Proceed v f a -> no_us f = true ->
   claim_den (v ++ "," ++ strip_suffix f) = Some a.
 Proof. exact proceed_names_exact. Qed.
 Print Assumptions c34_names_exact.
+
+(* the repair in DeleteHandler, stated for every method: a path whose volume id or file id does not parse
+   never reaches the store; an authorized DELETE of such a path is answered 400 *)
+Theorem c34_unparsed_not_proceed : forall tab cfg rq v f,
+  parse_url_path (rq_path rq) = Some (v, f) ->
+  parse_vid v = None \/ parse_path f = None ->
+  is_proceed (handle tab cfg rq) = false.
+Proof. exact unparsed_not_proceed. Qed.
+Print Assumptions c34_unparsed_not_proceed.
+
+Theorem c34_delete_unparsed_bad_request : forall tab cfg rq v f,
+  rq_method rq = DELETE -> rq_public rq = false -> whitelist_blocks cfg rq = false ->
+  parse_url_path (rq_path rq) = Some (v, f) ->
+  check_jwt tab cfg true rq v f = true ->
+  parse_vid v = None \/ parse_path f = None ->
+  handle tab cfg rq = BadRequest.
+Proof. exact delete_unparsed_bad_request. Qed.
+Print Assumptions c34_delete_unparsed_bad_request.
 
 (* the numbers behind the texts *)
 Theorem c34_claim_den_app : forall v b vol id ck,
@@ -157,19 +172,22 @@ Theorem c34_suffix_ignored : forall tab cfg w rq vid base n,
 Proof. exact check_jwt_suffix. Qed.
 Print Assumptions c34_suffix_ignored.
 
-(* the run of finding C34/0 and, beside it, the same path on GET and PUT (refused with 400) *)
-Example c34_refuted_run :
-  trig_delete_unparsed r_rq = true /\
-  handle r_tab w_cfg r_rq = Proceed "x3" "01637037d6" (0, 1, 1668298710)%N /\
+(* the former witnesses of finding C34/0 (a write token whose claim repeats the unparsable text): 400
+   before the store, volume 0 / needle 1 untouched; beside it the same path on GET and PUT *)
+Example c34_repaired_delete_witness :
+  check_jwt r_tab w_cfg true r_rq "x3" "01637037d6" = true /\
+  claim_den "x3,01637037d6" = None /\
+  handle r_tab w_cfg r_rq = BadRequest /\
   store_step (handle r_tab w_cfg r_rq) DELETE
     {| w_vols := [0%N; 3%N]; w_live := [{| n_vol := 0; n_id := 1; n_ck := 1668298710; n_content := 1 |}] |}
-  = {| e_status := 202; e_live := []; e_disclosed := [] |} /\
-  handle [("T", mk_tok "3,zz637037d6")] w_cfg (mk_rq DELETE "/3,zz637037d6") = Proceed "3" "zz637037d6" (3, 0, 0)%N /\
+  = {| e_status := 400; e_live := [{| n_vol := 0; n_id := 1; n_ck := 1668298710; n_content := 1 |}]; e_disclosed := [] |} /\
+  handle [("T", mk_tok "3,zz637037d6")] w_cfg (mk_rq DELETE "/3,zz637037d6") = BadRequest /\
+  handle [("T", mk_tok "3,01637037d6")] w_cfg (mk_rq DELETE "/3,01637037d6_x") = BadRequest /\
   handle r_tab w_cfg (mk_rq GET "/x3,01637037d6") = BadRequest /\
   handle r_tab {| write_key := ""; read_key := w_key; wl_active := false |} (mk_rq GET "/x3,01637037d6") = BadRequest /\
   handle r_tab w_cfg (mk_rq PUT "/x3,01637037d6") = BadRequest.
-Proof. exact refuted_run. Qed.
-Print Assumptions c34_refuted_run.
+Proof. exact repaired_delete_witness. Qed.
+Print Assumptions c34_repaired_delete_witness.
 
 (* the former defect of PostHandler (token for file 1, file name carrying file 2) is refused with 400 *)
 Example c34_repaired_witness :
@@ -180,8 +198,8 @@ Example c34_repaired_witness :
 Proof. exact repaired_witness. Qed.
 Print Assumptions c34_repaired_witness.
 
-(* non-vacuity (the hypotheses of c34_names_target_partial hold on the first request, which addresses
-   needle 2 under the token of needle 1 through "_1"); the comparison is textual, so "03,..." is refused
+(* non-vacuity (the hypotheses of c34_names_target / c34_accept_names_target hold on the first request,
+   a DELETE which addresses needle 2 under the token of needle 1 through "_1"); the comparison is textual, so "03,..." is refused
    although it denotes the same file (stricter than needed) *)
 Example c34_example :
   let rq := {| rq_public := false; rq_method := DELETE; rq_query_jwt := ""; rq_auth := "Bearer T";
@@ -189,7 +207,6 @@ Example c34_example :
   let up := mk_rq PUT "/3,01637037d6.txt" in
   handle [("T", w_tok)] w_cfg rq = Proceed "3" "01637037d6_1" (3, 2, 1668298710)%N /\
   handle [("T", w_tok)] w_cfg up = Proceed "3" "01637037d6" (3, 1, 1668298710)%N /\
-  trig_delete_unparsed rq = false /\
   claim_den "3,01637037d6" = Some (3, 1, 1668298710)%N /\ claim_den "03,01637037d6" = Some (3, 1, 1668298710)%N /\
   handle [("T", mk_tok "03,01637037d6")] w_cfg rq = Unauthorized /\
   handle [("T", {| t_wellformed := true; t_alg := AlgNone; t_signed_with := ""; t_exp_ok := true; t_nbf_ok := true;
